@@ -56,7 +56,7 @@ ROLES = {
         "ints": {"N": "N", "M": "M", "K": "K", "rx": "rx", "rz": "rz"},
         "param_order": ["A_cores", "B_cores", "M", "N", "K"],
         "scalars": ("nrmsc",), "scalar_seqs": ("normA", "normb", "normx"),
-        "floor": 17,
+        "floor": 12,
     },
 }
 
@@ -420,9 +420,11 @@ def type_body(model: Model, short: str) -> list[Ob]:
     for nm in list(roles["objs"]) + list(roles["seqs"]) + list(roles["ints"]):
         actual = alias.get(nm, nm)
         present = actual in params or any(isinstance(n, ast.Name) and n.id == actual and isinstance(n.ctx, ast.Store) for n in ast.walk(f.node))
-        if not present:
+        used = any(isinstance(n, ast.Name) and n.id == actual for n in ast.walk(f.node))
+        if not present and used:
             return [Ob("IFACE-TYPE", f"{short}:IFACE-TYPE:role:{nm}", ERROR, model.where(f), short,
-                       f"the role table names `{nm}` (cores / rank list / operand), which {short} no longer defines")]
+                       f"the role table names `{nm}` (cores / rank list / operand), which {short} reads but no longer defines")]
+        # (a role that the function neither defines nor reads - a removed dead local - is simply absent)
     loops = _sweep_loops(f)
     top = [l for l in loops if not any(o is not l and any(m is l for m in ast.walk(o)) for o in loops)]
     if len(top) < 2:
